@@ -62,6 +62,15 @@ def gen(seed, tier):
                 if r.random() < 0.25:
                     l["pre_evals"] = r.randint(1, 4)
                 break
+    if seed % 83 == 11:
+        # long-lived wrapper instances: 10^3 .. 3*10^5 evaluations went through the stack before this tree
+        for st in pl["stacks"]:
+            n = P.loguniform_int(r, 1000, 300000)
+            cut = [l for l in st["layers"] if l["kind"] == "cutoff"]
+            if cut:
+                cut[0]["pre_evals"] = n
+            else:
+                st["pre_evals_top"] = n
     if "jumps" in pl["clock"]:
         pl["clock"]["jumps"] = {str(P.loguniform_int(r, 1, 300)): r.choice([0.0, 0.0, 5.0, 86400.0, 3.2e7])
                                 for _ in range(r.randint(1, 5))}
